@@ -16,7 +16,7 @@ use crate::models::canonical_ip;
 use crate::udpdrv::{self, GenParams, UdpCase};
 use crate::{vensure, vfail};
 
-pub const RULE: &str = "(canonical) CanonicalSocketAddr::new / get / get_ipv6_mapped / is_ipv4 and the WS IpVersion::canonical_from_ip over v4, v6, ::ffff:a.b.c.d and near-misses (::fffe:.., ::ffff:0:a.b.c.d, ::a.b.c.d) against std's Ipv6Addr::to_ipv4_mapped; (header) HTTP requests constructed from a generated layout - 1..4 occurrences of the configured header among 0..12 other headers, each a comma list of 1..4 addresses (v4, v6, mapped) with generated blanks, plus ip=/ipv4=/ipv6= query parameters naming a victim - parsed by the real parse_request in reverse-proxy and direct mode, the resulting peer address computed as connection.rs does, announced into the real storage and read back by an observer: it must be (last address of the last occurrence | TCP peer, canonicalised) + announced port; (udp-storage) C01's storage driver with v4 / v6 / v4-mapped sources and arbitrary in-request ip fields: every reply and observation equals the model keyed by canonical source IP (a mapped source and its plain IPv4 twin are one entry). End-to-end socket configurations are the `e2e` sub-check. non-trivial = mapped or v6 source, non-zero in-request ip, >= 2 header occurrences or a comma list; distinct = distinct serialised case";
+pub const RULE: &str = "(canonical) CanonicalSocketAddr::new / get / get_ipv6_mapped / is_ipv4 and the WS IpVersion::canonical_from_ip over v4, v6, ::ffff:a.b.c.d and near-misses (::fffe:.., ::ffff:0:a.b.c.d, ::a.b.c.d) against std's Ipv6Addr::to_ipv4_mapped; (header) HTTP requests constructed from a generated layout - 1..4 occurrences of the configured header among 0..12 other headers, each a comma list of 1..4 addresses (v4, v6, mapped) with generated blanks, plus ip=/ipv4=/ipv6= query parameters naming a victim - parsed by the real parse_request in reverse-proxy and direct mode, the resulting peer address computed as connection.rs does, announced into the real storage and read back by an observer: it must be (last address of the last occurrence | TCP peer, canonicalised) + announced port; (udp-storage) C01's storage driver with v4 / v6 / v4-mapped sources and arbitrary in-request ip fields: every reply and observation equals the model keyed by canonical source IP (a mapped source and its plain IPv4 twin are one entry). End-to-end socket configurations are the `e2e` sub-check (real trackers per socket mode; in reverse-proxy mode also 4-7 announces of different clients, each with its own header layout, alternating over two kept-alive upstream connections). non-trivial = mapped or v6 source, non-zero in-request ip, >= 2 header occurrences or a comma list; distinct = distinct serialised case";
 
 #[derive(Debug, Clone, Serialize, Deserialize)]
 pub enum AddrSpec {
@@ -468,6 +468,91 @@ pub fn prop_e2e(c: &E2eCase) -> CaseResult {
                 want.extend_from_slice(&c.port_a.to_be_bytes());
                 vensure!(p4 == want && p6.is_empty(), "stored-address-wrong", "http reverse proxy {:?}: second client sees peers {:?} / peers6 {:?}; expected 10.1.2.3:{} (last address of the header, IPv4-mapped) in the IPv4 list", c.mode, p4, p6, c.port_a);
                 out.label("mapped-source");
+                // A reverse proxy re-uses its upstream connections: requests of *different* clients
+                // arrive on one kept-alive connection, each with its own header. Two such upstream
+                // connections, announces alternating between them; addresses and header layouts
+                // derived from the case.
+                let to: SocketAddr = if src.is_ipv4() { (std::net::Ipv4Addr::LOCALHOST, tr.port).into() } else { (std::net::Ipv6Addr::LOCALHOST, tr.port).into() };
+                let mut ups = vec![
+                    HttpClient::connect(src, to).map_err(|e| Violation::new("inconclusive-connect", e))?,
+                    HttpClient::connect(src, to).map_err(|e| Violation::new("inconclusive-connect", e))?,
+                ];
+                let hs2 = "FFFFFFFFFFFFFFFFFFFF";
+                let v = c.victim;
+                let mut expect4: std::collections::BTreeSet<(std::net::Ipv4Addr, u16)> = Default::default();
+                let mut expect6: std::collections::BTreeSet<(std::net::Ipv6Addr, u16)> = Default::default();
+                let n_ann = 4 + (v[1] % 4) as usize;
+                for i in 0..n_ann {
+                    let conn = if i == 0 { 0 } else { ((v[2] >> (i % 8)) & 1) as usize };
+                    let port = 2000 + i as u16 * 7 + (c.port_a % 1000);
+                    let decoy = std::net::Ipv4Addr::new(203, 0, 113, i as u8 + 1);
+                    let (hdr, is_v6) = match (v[3] as usize + i) % 4 {
+                        0 => {
+                            let a = std::net::Ipv4Addr::new(10, 9, v[0], i as u8 + 1);
+                            expect4.insert((a, port));
+                            (format!("X-Forwarded-For: {a}\r\n"), false)
+                        }
+                        1 => {
+                            let a = std::net::Ipv4Addr::new(10, 8, v[0], i as u8 + 1);
+                            expect4.insert((a, port));
+                            (format!("X-Forwarded-For: {decoy},  ::ffff:{a}\r\n"), false)
+                        }
+                        2 => {
+                            let a = std::net::Ipv6Addr::new(0x2001, 0xdb8, v[0] as u16, 0, 0, 0, 0, i as u16 + 1);
+                            expect6.insert((a, port));
+                            (format!("X-Forwarded-For: {decoy}\r\nX-Forwarded-For: {decoy}, {a}\r\n"), true)
+                        }
+                        _ => {
+                            let a = std::net::Ipv4Addr::new(10, 7, v[0], i as u8 + 1);
+                            expect4.insert((a, port));
+                            (format!("X-Forwarded-For: {a}, {decoy}\r\nAccept: x\r\nX-Forwarded-For: {a}\r\n"), false)
+                        }
+                    };
+                    let _ = is_v6;
+                    let req = format!("GET /announce?info_hash={hs2}&peer_id=-TR2940-abcdefghijk{}&port={port}&uploaded=0&downloaded=0&left=1&numwant=50 HTTP/1.1\r\nHost: x\r\n{hdr}\r\n", (b'a' + i as u8) as char);
+                    ups[conn].send_segments(&[req.as_bytes()]).map_err(|e| Violation::new("inconclusive-send", e))?;
+                    match ups[conn].read_reply(timeout) {
+                        HttpRead::Ok { .. } => {}
+                        other => return Err(Violation::new("no-reply", format!("upstream connection {conn}, announce {i}: {:?}", other))),
+                    }
+                    if i > 0 && conn == 0 {
+                        out.label("proxy-upstream-connection-reused");
+                    }
+                }
+                // observers on fresh connections: one IPv4 client, one IPv6 client
+                let observe = |hdr: &str| -> Result<(Vec<u8>, Vec<u8>), Violation> {
+                    let mut cl = HttpClient::connect(src, to).map_err(|e| Violation::new("inconclusive-connect", e))?;
+                    let req = format!("GET /announce?info_hash={hs2}&peer_id=-TR2940-observer0000&port=9&uploaded=0&downloaded=0&left=1&numwant=50&event=stopped HTTP/1.1\r\nHost: x\r\n{hdr}\r\n");
+                    cl.send_segments(&[req.as_bytes()]).map_err(|e| Violation::new("inconclusive-send", e))?;
+                    match cl.read_reply(timeout) {
+                        HttpRead::Ok { body, .. } => Ok(peers_of(&ben_parse_strict(&body[..body.len().saturating_sub(2)]).map_err(|e| Violation::new("reply-malformed", e))?)),
+                        other => Err(Violation::new("no-reply", format!("{:?}", other))),
+                    }
+                };
+                let (p4, _) = observe("X-Forwarded-For: 192.0.2.77\r\n")?;
+                let (_, p6) = observe("X-Forwarded-For: 2001:db8:ffff::77\r\n")?;
+                let got4: std::collections::BTreeSet<(std::net::Ipv4Addr, u16)> = p4.chunks(6).filter(|c| c.len() == 6).map(|c| (std::net::Ipv4Addr::new(c[0], c[1], c[2], c[3]), u16::from_be_bytes([c[4], c[5]]))).collect();
+                let got6: std::collections::BTreeSet<(std::net::Ipv6Addr, u16)> = p6
+                    .chunks(18)
+                    .filter(|c| c.len() == 18)
+                    .map(|c| {
+                        let mut a = [0u8; 16];
+                        a.copy_from_slice(&c[..16]);
+                        (std::net::Ipv6Addr::from(a), u16::from_be_bytes([c[16], c[17]]))
+                    })
+                    .collect();
+                out.checks += 2;
+                vensure!(
+                    got4 == expect4 && got6 == expect6,
+                    "stored-address-wrong",
+                    "http reverse proxy {:?}: {} announces of different clients over two kept-alive upstream connections; stored peers {:?} / {:?}, expected (last address of the last header occurrence of *each* request + its port) {:?} / {:?}",
+                    c.mode,
+                    n_ann,
+                    got4,
+                    got6,
+                    expect4,
+                    expect6
+                );
             } else if v4_reachable || mapped_sources {
                 announce(t5, c.port_a, "")?;
                 let r = announce(t6, c.port_b, "X-Forwarded-For: 9.9.9.9\r\n")?;
@@ -601,7 +686,7 @@ pub fn run(ctx: &mut Ctx) {
     ctx.threads = saved.min(6);
     ctx.run_enum("e2e", cases, false, prop_e2e);
     ctx.threads = saved;
-    for l in ["mapped-source", "v6-client", "v6-only", "udp-mio", "udp-uring", "http", "http-proxy", "ws"] {
+    for l in ["mapped-source", "v6-client", "v6-only", "udp-mio", "udp-uring", "http", "http-proxy", "ws", "proxy-upstream-connection-reused"] {
         ctx.require_label("e2e", l, 0.05);
     }
 }
